@@ -100,6 +100,8 @@ def run(chk):
                 rf = E.run_entry(lib, lead, name, {'fast': True, 'sink': sink, 'shape_ok': True, 'qshape_ok': True})
                 rg = E.run_entry(lib, lead, name, {'fast': False, 'sink': sink, 'shape_ok': True, 'qshape_ok': True})
                 key = 'fast-vs-general-%dd-%s-%s' % (lead, name, sink)
+                if rf is not None and rg is not None and 'unsupported' in (rf.outcome, rg.outcome):
+                    continue        # outside the reviewed entry-point surface: reported by C09 / C14
                 if rf is None or rg is None or rf.outcome != 'return' or rg.outcome != 'return':
                     chk.ob('R19.5', "%s: both paths evaluate (fast: %s %s, general: %s %s)" % (key, rf and rf.outcome, rf and rf.exc, rg and rg.outcome, rg and rg.exc),
                            False, (rf.exc.where if rf is not None and rf.exc else ''), key + '-evaluates')
